@@ -106,6 +106,9 @@ impl Vm {
 
   pub(super) fn verif_switch(&mut self, to: Ref<Fiber>) {
     verif::CONTEXT_SWITCHES.fetch_add(1, Relaxed);
+    if !verif::SCHED_TRACE.load(Relaxed) {
+      return;
+    }
     verif::sched_event(format!(
       "switch {}>{} q={}",
       verif::small_id(self.fiber.verif_addr()),
@@ -116,6 +119,9 @@ impl Vm {
 
   pub(super) fn verif_queued(&mut self, fiber: Ref<Fiber>) {
     verif::FIBERS_QUEUED.fetch_add(1, Relaxed);
+    if !verif::SCHED_TRACE.load(Relaxed) {
+      return;
+    }
     verif::sched_event(format!(
       "wake {} by {} state={}",
       verif::small_id(fiber.verif_addr()),
@@ -126,6 +132,9 @@ impl Vm {
 
   pub(super) fn verif_deadlock(&mut self) {
     verif::DEADLOCKS.fetch_add(1, Relaxed);
+    if !verif::SCHED_TRACE.load(Relaxed) {
+      return;
+    }
     verif::sched_event(format!(
       "deadlock at {}",
       verif::small_id(self.fiber.verif_addr())
